@@ -61,6 +61,12 @@ def check(col: Collector, tier: str):
                 loops = enclosing(init.node, r, (ast.For,), pm)
                 if loops and src(loops[0].iter) == "self.files" and src(t.func.value) == src(loops[0].target):
                     missing_ok = True
+    # the default output directory: tempfile.gettempdir() - the module attribute tempfile.tempdir is None until something has called
+    # gettempdir(), so a constructor that reads it (or asserts on it) fails in a fresh process
+    lazy = [f"line {n.lineno}" for n in ast.walk(init.node) if isinstance(n, ast.Attribute) and n.attr == "tempdir" and src(n.value) == "tempfile"]
+    col.add("C17.R1", init.short, "default-output-directory-available-in-a-fresh-process", not lazy,
+            f"tempfile.tempdir is read at {lazy}: it is None until tempfile.gettempdir() has run once in the process (AssertionError / Path(None)); "
+            "use tempfile.gettempdir()", init.loc)
     col.add("C17.R1", init.short, "empty-file-list-raises", empty_ok, "an empty file list must raise in the constructor", init.loc)
     col.add("C17.R1", init.short, "missing-file-raises", missing_ok,
             "every file of self.files must be tested with exists() and a missing one must raise", init.loc)
@@ -460,6 +466,24 @@ def check_failure(col: Collector, repo: Repo, ex, run_dir_var):
         reraises = isinstance(last, ast.Raise) and (last.exc is None or (h.name and src(last.exc) == h.name))
         col.add("C17.R4", ex.short, f"except-clause-{i}-re-raises:{src(h.type) if h.type else 'bare'}"[:80], reraises,
                 "a container failure must propagate to the caller: the handler must end with `raise`", f"{ex.module.rel}:{h.lineno}")
+    # the log dump runs on the success path and inside the failure handler (before the re-raise): a file of the run directory that is not
+    # text must not make it raise - the result would be lost, or the container's error replaced by a decoding error
+    di = repo.method("LocalDataset", "_dump_info")
+    opens = [c for c in ast.walk(di.node) if isinstance(c, ast.Call) and call_name(c) in ("open", "read_text")]
+    strict = []
+    for c in opens:
+        er = kwarg(c, "errors")
+        mode = arg(c, 0 if isinstance(c.func, ast.Attribute) else 1, "mode")
+        binary = mode is not None and "b" in (const_str(mode) or "")
+        if not binary and (er is None or const_str(er) in (None, "strict")):
+            pmd = parent_map(di.node)
+            protected = any(isinstance(t, ast.Try) and any(h.type is None or "Exception" in src(h.type) or "Unicode" in src(h.type) for h in t.handlers)
+                            for t in enclosing(di.node, c, (ast.Try,), pmd))
+            if not protected:
+                strict.append(f"{src(c)[:40]} (line {c.lineno})")
+    col.add("C17.R4", di.short, "log-dump-cannot-fail-on-a-binary-file", bool(opens) and not strict,
+            f"_dump_info reads every non-.root file of the run directory as strict text: {strict}; a core file or any binary by-product raises "
+            "UnicodeDecodeError - on success no result is returned, on failure the DockerException is replaced", di.loc)
     col.add("C17.R4", ex.short, "has-except-around-docker.run", bool(handlers), "error logging handler expected around docker.run", ex.loc)
     # no return inside try/except/finally; the only return comes after and goes through _extract_result_TTree
     tries = [t for t in ast.walk(fn) if isinstance(t, ast.Try)]
